@@ -1,2 +1,87 @@
 //! Verification harnesses compiled into heathcliff::util/polysmallmod as child module `verif_v`.
 #![allow(unused, dead_code, non_snake_case)]
+use super::*;
+
+#[cfg(kani)]
+mod proofs {
+    use super::*;
+    use crate::modulus::verif_v::mk_modulus;
+    use crate::util::MultiplyU64ModOperand;
+
+    const Q0: u64 = 13; const Q1: u64 = 17;
+    fn moduli() -> [Modulus; 2] { [mk_modulus(Q0, true), mk_modulus(Q1, true)] }
+    /// two polynomials (pcount=2) x two moduli x degree 2 = 8 residues, canonical
+    fn any_polys() -> [u64; 8] {
+        let a: [u8; 8] = kani::any();
+        let mut v = [0u64; 8]; let mut i = 0;
+        while i < 8 { let q = if (i / 2) % 2 == 0 { Q0 } else { Q1 }; kani::assume((a[i] as u64) < q); v[i] = a[i] as u64; i += 1; }
+        v
+    }
+    fn qi(i: usize) -> u64 { if (i / 2) % 2 == 0 { Q0 } else { Q1 } }
+
+    // @harness id=C02 tier=quick unwind=10 timeout=900
+    // @desc coefficient-wise RNS polynomial kernels (add/sub/negate and their _inplace/_p/_ps forms, add/sub/multiply scalar, multiply_operand, dyadic_product and inplace, modulo): every output residue equals the reference residue at the SAME (polynomial, modulus, coefficient) position, and the read-only operands are unchanged
+    // @bounds pcount=2, two moduli (13, 17), degree 2: all 8-residue operand pairs; scalar any value below the smaller modulus; one residue position checked symbolically
+    // @funcs polysmallmod::{add,sub,negate,add_scalar,sub_scalar,multiply_scalar,multiply_operand,dyadic_product,modulo}{,_p,_ps} and their _inplace forms
+    #[kani::proof]
+    fn c02_poly_kernels_positionwise() {
+        let m = moduli();
+        let a = any_polys(); let b = any_polys();
+        let i: usize = kani::any(); kani::assume(i < 8);
+        let q = qi(i);
+        let mut r = [0u64; 8];
+        add_ps(&a, &b, 2, 2, &m, &mut r); assert!(r[i] == (a[i] + b[i]) % q);
+        sub_ps(&a, &b, 2, 2, &m, &mut r); assert!(r[i] == (a[i] + q - b[i]) % q);
+        negate_ps(&a, 2, 2, &m, &mut r); assert!(r[i] == (q - a[i]) % q);
+        dyadic_product_ps(&a, &b, 2, 2, &m, &mut r); assert!(r[i] == (a[i] * b[i]) % q);
+        kani::cover!(i == 7 && r[i] != 0);
+        let mut t = a; add_inplace_ps(&mut t, &b, 2, 2, &m); assert!(t[i] == (a[i] + b[i]) % q);
+        let mut t = a; sub_inplace_ps(&mut t, &b, 2, 2, &m); assert!(t[i] == (a[i] + q - b[i]) % q);
+        let mut t = a; negate_inplace_ps(&mut t, 2, 2, &m); assert!(t[i] == (q - a[i]) % q);
+        let mut t = a; dyadic_product_inplace_ps(&mut t, &b, 2, 2, &m); assert!(t[i] == (a[i] * b[i]) % q);
+        let s: u8 = kani::any(); let s = s as u64; kani::assume(s < Q0);
+        add_scalar_ps(&a, s, 2, 2, &m, &mut r); assert!(r[i] == (a[i] + s) % q);
+        sub_scalar_ps(&a, s, 2, 2, &m, &mut r); assert!(r[i] == (a[i] + q - s) % q);
+        multiply_scalar_ps(&a, s, 2, 2, &m, &mut r); assert!(r[i] == (a[i] * s) % q);
+        let mut t = a; add_scalar_inplace_ps(&mut t, s, 2, 2, &m); assert!(t[i] == (a[i] + s) % q);
+        let mut t = a; sub_scalar_inplace_ps(&mut t, s, 2, 2, &m); assert!(t[i] == (a[i] + q - s) % q);
+        let mut t = a; multiply_scalar_inplace_ps(&mut t, s, 2, 2, &m); assert!(t[i] == (a[i] * s) % q);
+        // unreduced input through modulo_ps
+        let w: [u8; 8] = kani::any();
+        let wv = [w[0] as u64, w[1] as u64, w[2] as u64, w[3] as u64, w[4] as u64, w[5] as u64, w[6] as u64, w[7] as u64];
+        modulo_ps(&wv, 2, 2, &m, &mut r); assert!(r[i] == wv[i] % q);
+    }
+
+    // @harness id=C19 tier=quick unwind=10 timeout=900
+    // @desc negacyclic_shift(p, s) = X^s * p in Z_q[X]/(X^N+1) for every shift 0 <= s < 2N: coefficient i lands at (i+s) mod N with sign (-1)^floor((i+s)/N); the _p/_ps forms apply it per modulus and per polynomial at the right offsets
+    // @bounds N in {4, 8} single modulus 17 (all coefficient vectors, all shifts); _ps form at pcount=2, moduli (13,17), degree 2
+    // @funcs negacyclic_shift, negacyclic_shift_p, negacyclic_shift_ps
+    #[kani::proof]
+    fn c19_negacyclic_shift() {
+        let c: bool = kani::any();
+        let m17 = mk_modulus(17, true);
+        if c {
+            let a: [u8; 8] = kani::any();
+            let mut v = [0u64; 8]; let mut k = 0; while k < 8 { kani::assume(a[k] < 17); v[k] = a[k] as u64; k += 1; }
+            let s: usize = kani::any(); kani::assume(s < 16);
+            let mut r = [0u64; 8];
+            negacyclic_shift(&v, s, &m17, &mut r);
+            let i: usize = kani::any(); kani::assume(i < 8);
+            let e = i + s; let neg = (e / 8) & 1 == 1;
+            kani::cover!(neg && v[i] != 0);
+            assert!(r[e % 8] == if neg { (17 - v[i]) % 17 } else { v[i] });
+        } else {
+            let m = moduli();
+            let a = any_polys();
+            let s: usize = kani::any(); kani::assume(s < 4);
+            let mut r = [0u64; 8];
+            negacyclic_shift_ps(&a, s, 2, 2, &m, &mut r);
+            let i: usize = kani::any(); kani::assume(i < 8);
+            let q = qi(i); let base = i - i % 2; let e = i % 2 + s; let neg = (e / 2) & 1 == 1;
+            kani::cover!(neg && a[i] != 0 && i >= 6);
+            assert!(r[base + e % 2] == if neg { (q - a[i]) % q } else { a[i] });
+        }
+    }
+
+    #[cfg(test)] include!("/verif/.build/playback/util_polysmallmod_v.rs");
+}
